@@ -217,6 +217,11 @@ func (ch *Chain) hookBytes(h M) []byte {
 		var msgs []sdk.Msg
 		for _, m := range absx.List(h["msgs"]) {
 			mm := absx.Map(m)
+			if absx.Str(mm["kind"]) == "deposit" {
+				msgs = append(msgs, &opchildtypes.MsgFinalizeTokenDeposit{Sender: c.Addr(name), From: c.Addr(absx.Str(mm["from"])), To: c.Addr(absx.Str(mm["to"])),
+					Amount: coin(c, absx.Str(mm["denom"]), absx.Int(mm["amt"])), Sequence: uint64(absx.Int(mm["seq"])), Height: uint64(absx.Int(mm["height"])), BaseDenom: c.Denom(absx.Str(mm["base"]))})
+				continue
+			}
 			if absx.Str(mm["kind"]) == "withdraw" {
 				msgs = append(msgs, &opchildtypes.MsgInitiateTokenWithdrawal{Sender: c.Addr(name), To: c.Addr(absx.Str(mm["to"])), Amount: coin(c, absx.Str(mm["denom"]), absx.Int(mm["amt"]))})
 				continue
@@ -403,17 +408,38 @@ func (ch *Chain) Exec(e M) Outcome {
 		if res.Result == opchildtypes.NOOP {
 			return Outcome{OK: true, Resp: M{"result": "NOOP"}}
 		}
+		// every finalize_token_deposit event of the transaction in emission order; the last one is this deposit's own
+		// (deposits delivered from inside the hook announce theirs when the hook is committed, before it)
+		var depEvs []any
+		for _, e := range r.Events {
+			if e.Type != opchildtypes.EventTypeFinalizeTokenDeposit {
+				continue
+			}
+			g := func(k string) string {
+				for _, a := range e.Attributes {
+					if a.Key == k {
+						return a.Value
+					}
+				}
+				return ""
+			}
+			depEvs = append(depEvs, M{"seq": atoi(g(opchildtypes.AttributeKeyL1Sequence)), "denom": c.DenomName(g(opchildtypes.AttributeKeyDenom)), "amt": ch.unitsStr(g(opchildtypes.AttributeKeyAmount)),
+				"success": g(opchildtypes.AttributeKeySuccess) == "true"})
+		}
 		get := func(k string) string { v, _ := attr(r.Events, opchildtypes.EventTypeFinalizeTokenDeposit, k); return v }
-		_, n := attr(r.Events, opchildtypes.EventTypeFinalizeTokenDeposit, opchildtypes.AttributeKeyL1Sequence)
+		n := len(depEvs)
 		ev := M{"count": int64(n)}
-		if n == 1 {
+		if n >= 1 {
 			ev = M{"seq": atoi(get(opchildtypes.AttributeKeyL1Sequence)), "from": c.AddrName(get(opchildtypes.AttributeKeySender)), "to": c.AddrName(get(opchildtypes.AttributeKeyRecipient)),
 				"denom": c.DenomName(get(opchildtypes.AttributeKeyDenom)), "base": c.DenomName(get(opchildtypes.AttributeKeyBaseDenom)), "amt": ch.unitsStr(get(opchildtypes.AttributeKeyAmount)),
 				"height": atoi(get(opchildtypes.AttributeKeyFinalizeHeight)), "success": get(opchildtypes.AttributeKeySuccess) == "true"}
 		}
-		wd, hookWds := ch.depositWithdrawals(r.Events, n != 1 || absx.Bool(ev["success"]))
+		wd, hookWds := ch.depositWithdrawals(r.Events, n < 1 || absx.Bool(ev["success"]))
+		if depEvs == nil {
+			depEvs = []any{}
+		}
 		return Outcome{OK: true, Resp: M{"result": map[string]string{"RESPONSE_RESULT_TYPE_SUCCESS": "SUCCESS", "RESPONSE_RESULT_TYPE_NOOP": "NOOP"}[res.Result.String()], "ev": ev,
-			"wd": wd, "hookWds": hookWds, "hookGasOK": hookGasOK}}
+			"wd": wd, "hookWds": hookWds, "depEvs": depEvs, "hookGasOK": hookGasOK}}
 	case "InitiateTokenWithdrawal":
 		r := Deliver(f, ch.Ctx, ch.toMsg(e))
 		if !r.OK {
